@@ -1,6 +1,7 @@
 package util
 
 import (
+	"strings"
 	"unicode"
 
 	"golang.org/x/text/secure/precis"
@@ -19,6 +20,23 @@ func RemoveAccentsFromString(v string) string {
 		}),
 		precis.Norm(norm.NFC), // This is the default; be explicit though.
 	)
-	p, _ := loosecompare.String(v)
+	p, err := loosecompare.String(v)
+	if err != nil {
+		// The profile rejects the whole string for one character it does not
+		// allow (typographic punctuation, symbols, emoji, ...). Keep what can be
+		// kept: every rejected character is replaced by an underscore.
+		var b strings.Builder
+		for _, r := range norm.NFD.String(v) {
+			if unicode.Is(unicode.Mn, r) {
+				continue
+			}
+			if s, err := loosecompare.String(string(r)); err == nil && len(s) > 0 {
+				b.WriteString(s)
+			} else {
+				b.WriteRune('_')
+			}
+		}
+		p = norm.NFC.String(b.String())
+	}
 	return p
 }
